@@ -659,6 +659,11 @@ def judge_c08(ops, impl):
     last_get = {}
     scripts = {}
     for i, toks, obs, w in walk(ops, impl):
+        if toks[0] in ('serve', 'gserve') and obs.startswith('call ') and decB(toks[2]) == b'HEAD' and ' head=1 ' in obs:
+            # whatever happens below the HEAD wrapper (also a recovery function answering a panic): no body bytes
+            m = re.search(r' body=(\d+) ', obs)
+            if m and int(m.group(1)) != 0:
+                bad.append((i, 'HEAD served by a GET route delivered %s body bytes' % m.group(1)))
         if toks[0] == 'script':
             scripts[int(toks[1])] = toks[2]
         if toks[0] == 'handle' and obs == 'ok':
@@ -682,13 +687,13 @@ def judge_c08(ops, impl):
         if method == 'HEAD':
             if ('GET' in t) != f['base'].startswith('user:'):
                 bad.append((i, 'HEAD served=%s but GET registered=%s on %r' % (f['base'].startswith('user:'), 'GET' in t, pattern)))
-            if f['base'].startswith('user:'):
+            if f['base'].startswith('user:') and ' => panicked:' not in obs:
                 if f.get('body') != '0':
                     bad.append((i, 'HEAD delivered %s body bytes' % f.get('body')))
                 if f['base'] != 'user:%d' % t['GET'][0] if 'GET' in t else False:
                     bad.append((i, 'HEAD ran %s, GET handler is %s' % (f['base'], t['GET'][0])))
                 g = last_get.get(key)
-                if g and g[1]['base'] == f['base'] and g[0] == i - 1:
+                if g and g[1]['base'] == f['base'] and g[0] == i - 1 and ' => normal ' in obs and ' => normal ' in g[2]:
                     gl = dec_hdr(g[1].get('live', '%-')); hl = dec_hdr(f.get('live', '%-'))
                     gl.pop('Content-Length', None); cl = hl.pop('Content-Length', None)
                     st = lambda x: '200' if x == '-' else x     # an unset status is an implicit 200
